@@ -88,8 +88,10 @@ def cells(series="closed", gimbal=None):
     def decide(low, n):
         g = low.g
         op, args, _ = g.nodes[n]
-        # CasADi simplifies fabs(x*x) to x*x, so the Taylor switch appears with or without the FABS node
-        if op == "LT" and g.op(args[1]) == "CONST" and g.payload(args[1]) == SERIES_EPS:
+        # CasADi simplifies fabs(x*x) to x*x, so the Taylor switch appears with or without the FABS node; without it the
+        # left-hand side must be syntactically non-negative, otherwise `x < 1e-3` is NOT the switch |x| < 1e-3 and
+        # deciding it here would be unsound (the path is then explored instead)
+        if op == "LT" and g.op(args[1]) == "CONST" and g.payload(args[1]) == SERIES_EPS and (g.op(args[0]) == "FABS" or nonneg_node(g, args[0])):
             if is_gimbal(g, n):
                 return False if gimbal == "outside" else None
             if series == "closed":
@@ -99,6 +101,28 @@ def cells(series="closed", gimbal=None):
         return None
 
     return decide
+
+
+def nonneg_node(g, n, depth=0):
+    """syntactic non-negativity of an IR node (squares, sums / products / positive multiples of non-negative nodes)"""
+    if depth > 12:
+        return False
+    op, args, payload = g.nodes[n]
+    if op in ("SQ", "FABS"):
+        return True
+    if op == "CONST":
+        return not isinstance(payload, str) and payload >= 0
+    if op == "ADD":
+        return all(nonneg_node(g, a, depth + 1) for a in args)
+    if op == "MUL":
+        return args[0] == args[1] or all(nonneg_node(g, a, depth + 1) for a in args)
+    if op == "DIV":
+        return nonneg_node(g, args[0], depth + 1) and g.op(args[1]) == "CONST" and not isinstance(g.payload(args[1]), str) and g.payload(args[1]) > 0
+    if op == "TWICE":
+        return nonneg_node(g, args[0], depth + 1)
+    if op == "SQRT":
+        return True
+    return False
 
 
 def source_hash(fn):
